@@ -126,7 +126,7 @@ func (c *XAConn) execWith(ctx context.Context, query string, args []driver.Named
 }
 
 // BeginTx like common transaction. but it just exec XA START
-func (c *XAConn) BeginTx(ctx context.Context, opts driver.TxOptions) (driver.Tx, error) {
+func (c *XAConn) BeginTx(ctx context.Context, opts driver.TxOptions) (result driver.Tx, resultErr error) {
 	if !tm.IsGlobalTx(ctx) {
 		// a local transaction of the application's: the mode the last XA branch on this connection left in
 		// the transaction context does not apply to it (Conn.BeginTx would begin nothing on the database)
@@ -137,6 +137,15 @@ func (c *XAConn) BeginTx(ctx context.Context, opts driver.TxOptions) (driver.Tx,
 		return tx, err
 	}
 
+	// a branch that could not be opened leaves the connection in the mode it was in: on a connection the
+	// application keeps (db.Conn) the next statement would otherwise find auto-commit cleared, open no branch
+	// and run outside the global transaction
+	wasAutoCommit := c.autoCommit
+	defer func() {
+		if resultErr != nil {
+			c.autoCommit = wasAutoCommit
+		}
+	}()
 	c.autoCommit = false
 
 	c.txCtx = types.NewTxCtx()
@@ -235,6 +244,14 @@ func (c *XAConn) createNewTxOnExecIfNeed(ctx context.Context, f func() (types.Ex
 	// execute SQL
 	ret, err := f()
 	if err != nil {
+		if tx == nil && !currentAutoCommit {
+			// a statement of a local transaction the application manages: the database has undone that
+			// statement, the branch goes on until the application commits or rolls back. Rolling the branch back
+			// here would let the application's next statements run outside any branch.
+			statementErr := err
+			err = nil // (not a reason for the deferred clean-up either)
+			return nil, statementErr
+		}
 		// XA End & Rollback
 		if rollbackErr := c.Rollback(ctx); rollbackErr != nil {
 			log.Errorf("failed to rollback xa branch of :%s, err:%w", c.txCtx.XID, rollbackErr)
